@@ -2,6 +2,7 @@ package main
 
 import (
 	"fmt"
+	"sort"
 	"strings"
 
 	"github.com/quasilyte/go-ruleguard/ruleguard"
@@ -23,6 +24,12 @@ func filters(m dsl.Matcher) {
 	m.Match("probeT($x)").Where(m["x"].Type.Is("map[$t]$t")).Report("same-kv $x")
 	m.Match("probeT($x, $y)").Where(m["x"].Type.Is("[]$t") && m["y"].Type.Is("$t")).Report("elem $x $y")
 	m.MatchComment("//\\s*(?P<w>\\w+)").Report("comment $w")
+	m.Match("probeT($x)").Where(m["x"].Type.Is("[$n]$elem")).Report("array $x")
+	m.Match("probeT($x, $y)").Where(m["x"].Type.Is("[$n]$t") && m["y"].Type.Is("[$n]$u")).Report("same-len $x $y")
+	m.Match("longProbe($x)").Report("long $x")
+	m.Match("longProbe($x)").Where(m.GoVersion().GreaterEqThan("1.20")).Report("never: the rule above wins")
+	m.Match("verProbe($x)").Where(m.GoVersion().LessThan("1.18")).Report("old $x")
+	m.Match("verProbe($x)").Where(m.GoVersion().GreaterEqThan("1.18")).Report("new $x")
 }
 
 func isSmall(ctx *dsl.VarFilterContext) bool {
@@ -69,10 +76,22 @@ func runC09(c *Ctx) error {
 	rng := hx.Rng(c.Seed, "c09")
 	var pool []*hx.Target
 	var cases []*walkCase
+	var poolTyped [][]string // the statements of typedProbes() of each pool file
+	var poolHead []string    // the file text before typedProbes()
 	for i := 0; i < 12; i++ {
-		typed := []string{"probeT(map[int]int{})", "probeT(map[string]int{})", "probeT(map[string]string{})", "probeT([]int{}, 1)", "probeT([]string{}, 1)", "probeT([]string{}, \"s\")", "probeT(map[int]string{})"}
+		typed := []string{"probeT(map[int]int{})", "probeT(map[string]int{})", "probeT(map[string]string{})", "probeT([]int{}, 1)", "probeT([]string{}, 1)", "probeT([]string{}, \"s\")", "probeT(map[int]string{})",
+			"probeT([3]int{}, [3]string{})", "probeT([3]int{}, [4]int{})",
+			"longProbe(\"a string literal that is certainly longer than the sixty bytes a message keeps by default\")", "verProbe(1)"}
+		// every file has array probes of different lengths and element types (type patterns that bind a length and a type)
+		arrays := []string{"probeT([3]int{})", "probeT([4]string{})", "probeT([2][2]bool{})", "probeT([1]float64{})", "probeT([5]*int{})"}
 		rng.Shuffle(len(typed), func(a, b int) { typed[a], typed[b] = typed[b], typed[a] })
-		src := genIfFile(rng, 2+rng.Intn(4)) + "\nfunc probeT(...interface{}) {}\n\nfunc typedProbes() {\n\t" + strings.Join(typed[:4+rng.Intn(4)], "\n\t") + "\n}\n\n// trailing " + fmt.Sprint(i) + "\n"
+		rng.Shuffle(len(arrays), func(a, b int) { arrays[a], arrays[b] = arrays[b], arrays[a] })
+		typed = append(append([]string{}, arrays[:2+rng.Intn(3)]...), typed[:4+rng.Intn(4)]...)
+		rng.Shuffle(len(typed), func(a, b int) { typed[a], typed[b] = typed[b], typed[a] })
+		head := genIfFile(rng, 2+rng.Intn(4)) + "\nfunc probeT(...interface{}) {}\n\nfunc longProbe(string) {}\n\nfunc verProbe(int) {}\n\n"
+		src := head + "func typedProbes() {\n\t" + strings.Join(typed, "\n\t") + "\n}\n\n// trailing " + fmt.Sprint(i) + "\n"
+		poolTyped = append(poolTyped, typed)
+		poolHead = append(poolHead, head)
 		t, err := hx.ParseTarget(fmt.Sprintf("pool%d.go", i), src)
 		if err != nil {
 			return fmt.Errorf("pool file: %v", err)
@@ -112,7 +131,7 @@ func runC09(c *Ctx) error {
 		if pk != "" || reportsKey(got) != base[probe] {
 			res.Violate(hx.Violation{Signature: "run-state:" + kind, What: "reports depend on what ran before",
 				Input: map[string]interface{}{"history": hist, "probe": pool[probe].Name, "probe_src": string(pool[probe].Src)},
-				Impl: pk + reportsKey(got), Spec: base[probe]})
+				Impl:  pk + reportsKey(got), Spec: base[probe]})
 		}
 	}
 	for h := 0; h < nHist; h++ {
@@ -120,9 +139,21 @@ func runC09(c *Ctx) error {
 		n := 1 + rng.Intn(maxLen)
 		var hist []string
 		lastKind := "after-completed-run"
+		// half of the histories keep ONE RunContext object for all their runs (as a driver that fills a context once
+		// and updates it per file does); every step may run under another TruncateLen / target Go version
+		var shared *ruleguard.RunContext
+		if rng.Intn(2) == 0 {
+			shared = &ruleguard.RunContext{}
+			res.Dist("history:one-RunContext-object")
+		}
 		for s := 0; s < n; s++ {
 			fi := rng.Intn(len(pool))
-			opts := hx.RunOpts{State: st}
+			opts := hx.RunOpts{State: st, Ctx: shared}
+			if rng.Intn(2) == 0 {
+				opts.TruncateLen = []int{7, 20, 80, -1, 61}[rng.Intn(5)]
+				opts.GoVersion = []string{"", "1.16", "1.21"}[rng.Intn(3)]
+				res.Dist("step:other-TruncateLen/GoVersion")
+			}
 			if rng.Intn(3) == 0 {
 				j := 1 + rng.Intn(6)
 				opts.OnReport = func(k int) {
@@ -130,11 +161,11 @@ func runC09(c *Ctx) error {
 						panic("verif-callback abort")
 					}
 				}
-				hist = append(hist, fmt.Sprintf("%s abort@%d", pool[fi].Name, j))
+				hist = append(hist, fmt.Sprintf("%s abort@%d trunc=%d go=%q", pool[fi].Name, j, opts.TruncateLen, opts.GoVersion))
 				lastKind = "after-aborted-run"
 				res.Dist("step:aborted")
 			} else {
-				hist = append(hist, pool[fi].Name)
+				hist = append(hist, fmt.Sprintf("%s trunc=%d go=%q", pool[fi].Name, opts.TruncateLen, opts.GoVersion))
 				lastKind = "after-completed-run"
 				res.Dist("step:completed")
 			}
@@ -151,15 +182,79 @@ func runC09(c *Ctx) error {
 			}
 		}
 		probe := rng.Intn(nGood)
-		got, pk, _, _ := hx.Run(e, pool[probe], hx.RunOpts{State: st})
+		got, pk, _, _ := hx.Run(e, pool[probe], hx.RunOpts{State: st, Ctx: shared})
 		check(lastKind, hist, probe, got, pk)
-		got2, pk2, _, _ := hx.Run(e, pool[probe], hx.RunOpts{State: st})
+		got2, pk2, _, _ := hx.Run(e, pool[probe], hx.RunOpts{State: st, Ctx: shared})
 		check("repeat", append(hist, pool[probe].Name), probe, got2, pk2)
 		got3, pk3, _, _ := hx.Run(e, pool[probe], hx.RunOpts{})
 		check("nil-state", nil, probe, got3, pk3)
 		res.Count("history", strings.Join(hist, ";"), n >= 2)
 		if h == 0 {
 			res.Sample(map[string]interface{}{"history": hist, "probe": pool[probe].Name, "reports": len(got)})
+		}
+	}
+	// node-level isolation inside one run: what is reported for a statement of typedProbes() must not depend on the
+	// statements evaluated before it — each statement alone in the function (fresh state) vs the whole function
+	typedMsgs := func(t *hx.Target, rs []hx.Report) []string {
+		from := strings.Index(string(t.Src), "func typedProbes()")
+		to := strings.Index(string(t.Src), "// trailing")
+		if to < 0 {
+			to = len(t.Src)
+		}
+		var out []string
+		for _, r := range rs {
+			if r.Pos >= from && r.Pos < to {
+				out = append(out, r.Message)
+			}
+		}
+		sort.Strings(out)
+		return out
+	}
+	// with the whole rule set, and with every type-pattern rule alone in its own engine (so that no other rule's
+	// evaluation sits between two evaluations of the same pattern)
+	isoEngines := []*ruleguard.Engine{e}
+	isoNames := []string{"all-rules"}
+	for _, line := range strings.Split(c09Rules, "\n") {
+		if strings.Contains(line, "m.Match(") && strings.Contains(line, ".Type.Is(") {
+			one, err := hx.LoadRules(hx.RulesFile("func one(m dsl.Matcher) {\n" + line + "\n}\n"))
+			if err != nil {
+				return fmt.Errorf("single-rule engine: %v", err)
+			}
+			isoEngines = append(isoEngines, one)
+			isoNames = append(isoNames, strings.TrimSpace(line))
+		}
+	}
+	for ei, e := range isoEngines {
+		for i := 0; i < nGood && i < len(poolTyped); i++ {
+			full, pk, _, err := hx.Run(e, pool[i], hx.RunOpts{})
+			if err != nil {
+				return err
+			}
+			if pk != "" {
+				continue
+			}
+			var lone []string
+			for k, stmt := range poolTyped[i] {
+				lt, err := hx.ParseTarget(fmt.Sprintf("lone%d_%d.go", i, k), poolHead[i]+"func typedProbes() {\n\t"+stmt+"\n}\n\n// trailing\n")
+				if err != nil {
+					return fmt.Errorf("lone file: %v", err)
+				}
+				rs, lpk, _, err := hx.Run(e, lt, hx.RunOpts{})
+				if err != nil {
+					return err
+				}
+				if lpk != "" {
+					continue
+				}
+				lone = append(lone, typedMsgs(lt, rs)...)
+			}
+			sort.Strings(lone)
+			got := typedMsgs(pool[i], full)
+			res.Count("node-isolation", isoNames[ei]+pool[i].Name, len(poolTyped[i]) >= 3)
+			if strings.Join(got, "\n") != strings.Join(lone, "\n") {
+				res.Violate(hx.Violation{Signature: "run-state:node-depends-on-earlier-nodes", What: "what is reported for a statement depends on the statements evaluated before it in the same run",
+					Input: map[string]interface{}{"rules": isoNames[ei], "statements": poolTyped[i], "src": string(pool[i].Src)}, Impl: strings.Join(got, " | "), Spec: strings.Join(lone, " | ")})
+			}
 		}
 	}
 	if err := walkSuite(c, "walk-ctx", cases); err != nil {
